@@ -3,6 +3,7 @@ package scen
 import (
 	"fmt"
 	"sort"
+	"strconv"
 	"strings"
 	"time"
 
@@ -50,7 +51,7 @@ func universe(alpha string, maxLen int) []string {
 		var next []string
 		for _, p := range frontier {
 			for i := 0; i < len(alpha); i++ {
-				next = append(next, p+string(alpha[i]))
+				next = append(next, p+string([]byte{alpha[i]}))
 			}
 		}
 		out = append(out, next...)
@@ -90,11 +91,11 @@ func (c20) Generate(r *core.Rng, run int, tier string) *core.History {
 		w := core.Pick(r, uni)
 		if r.Bool(.5) && len(h.Events) > 0 {
 			// bias towards prefix relations: extend or truncate a previous word
-			p := h.Events[r.Intn(len(h.Events))].Text
+			p, _ := strconv.Unquote(h.Events[r.Intn(len(h.Events))].Text)
 			if r.Bool(.5) && len(p) > 1 {
 				w = p[:1+r.Intn(len(p)-1)]
 			} else {
-				w = p + string(alpha[r.Intn(len(alpha))])
+				w = p + string([]byte{alpha[r.Intn(len(alpha))]})
 			}
 		}
 		if r.Bool(.05) {
@@ -102,10 +103,10 @@ func (c20) Generate(r *core.Rng, run int, tier string) *core.History {
 		}
 		if r.Bool(.05) {
 			for k := 5 + r.Intn(20); k > 0; k-- {
-				w += string(alpha[r.Intn(len(alpha))])
+				w += string([]byte{alpha[r.Intn(len(alpha))]})
 			}
 		}
-		h.Events = append(h.Events, core.Event{Ev: "insert", Text: w})
+		h.Events = append(h.Events, core.Event{Ev: "insert", Text: strconv.Quote(w)}) // quoted: raw bytes 0x00/0xff must survive JSON
 	}
 	h.Cfg["maxlen"] = int64(maxLen)
 	return h
@@ -143,7 +144,10 @@ func (c c20) Execute(h *core.History) *core.Outcome {
 		}
 	}
 	for i := range h.Events {
-		w := h.Events[i].Text
+		w, err := strconv.Unquote(h.Events[i].Text)
+		if err != nil {
+			w = h.Events[i].Text
+		}
 		t.Insert(w)
 		if w != "" {
 			for m := range model {
